@@ -221,3 +221,42 @@ def pointwise_handoff(c):
     c.ensures("independent-of-the-other-locations", c.eq(th.calls[1]['pos'][:, 1], want))
     c.ensures("same-value", c.eq(h2.values[1], h1.values[0]))
     c.canary("particle-position-ignored", c.eq(th.calls[0]['pos'][:, 0], A([k * x, k * y, -k * z])))
+
+
+@contract("C07", "sparse_subset_distinct", [MD + "make_subset_data"], native_only=True,
+          bounded="200x200 image, 399 of 40000 pixels (< 1 %): native sampling (a draw with replacement would repeat a pixel with probability 0.86 per run)")
+def sparse_subset_distinct(c):
+    """a sparse subset of a large image also consists of distinct pixels of the image, reproducibly for a seed, and keeps the
+    selected pixels' values and coordinates"""
+    seed = c.int("seed", 0, 10 ** 6)
+    im = data_grid(np.arange(40000.).reshape(200, 200), spacing=0.1)
+    sub, idx = make_subset_data(im, pixels=399, return_selection=True, seed=seed)
+    again, idx2 = make_subset_data(im, pixels=399, return_selection=True, seed=seed)
+    c.ensures("distinct-pixels", len(set(int(v) for v in idx)) == 399 and all(0 <= int(v) < 40000 for v in idx))
+    c.ensures("same-seed-same-selection", list(idx) == list(idx2))
+    c.ensures("values-are-the-selected-pixels", np.array_equal(sub.values.ravel(), np.array([float(v) for v in idx])))
+    c.ensures("distinct-locations", len(set(zip(sub.x.values.tolist(), sub.y.values.tolist()))) == 399)
+
+
+def _integer_grid(coords):
+    def body(c):
+        sph = _sphere(c)
+        th = AbstractPointTheory(coordinates=coords)
+        kw = _kw(c, th)
+        g_int = detector_grid((2, 3), 1)           # integer spacing: integer-typed x, y (and z = 0)
+        g_flt = detector_grid((2, 3), 1.0)
+        c.ensures("integer-typed-coordinates", g_int.x.dtype.kind in 'iu' or c.symbolic)
+        hi = c.call(calc_holo, g_int, sph, **kw)
+        hf = c.call(calc_holo, g_flt, sph, **kw)
+        c.ensures("same-values-whatever-the-coordinate-dtype", c.eq(hi.values, hf.values))
+        pts = detector_points(x=np.repeat(np.arange(2), 3), y=np.tile(np.arange(3), 2), z=np.zeros(6, dtype=int))
+        hp_ = c.call(calc_holo, pts, sph, **kw)
+        c.ensures("integer-points-equal-grid", c.eq(hp_.values.ravel(), hf.values.ravel()))
+    body.__doc__ = ("a detector whose coordinates are integer-typed (integer pixel spacing, z = 0) gives, location by location, the values of "
+                    "the same detector with float coordinates and of the same locations given as points - theory asking for %s coordinates" % coords)
+    return body
+
+
+for _cs in ("spherical", "cylindrical", "cartesian"):
+    contract("C07", "integer_typed_grid_" + _cs, [IF + "ImageFormation._transform_to_desired_coordinates", SI + "calc_holo"],
+             bounded="2x3 grid with integer spacing 1 (integer-typed coordinates)", timeout_ms=60000)(_integer_grid(_cs))
